@@ -36,3 +36,41 @@ def step (s : St) : Act → St
 def run (as : List Act) : St := as.foldl step {}
 
 end CqlVerif.Events
+
+/-!
+## The hand-over of backend events to the cluster's event loop
+
+`Cluster.OnEvent` (called by the control connection's reader) puts the frame into the bounded channel
+`Cluster.events`; `stayConnected` takes frames out one at a time.  A full channel makes the reader
+wait (`put` is refused and tried again): nothing is ever discarded.
+-/
+namespace CqlVerif.Events
+
+structure EvQ where
+  cap : Nat
+  emitted : List Nat := []     -- events the backend has written on the control connection, oldest first
+  accepted : Nat := 0          -- how many of them the reader has handed over so far
+  queue : List Nat := []       -- frames in the channel
+  handled : List Nat := []     -- frames the event loop has taken out
+  deriving Repr
+
+inductive QAct where
+  | emit (id : Nat)      -- the backend writes an event
+  | put                  -- the reader tries to hand over the next event it has read
+  | get                  -- the event loop takes one
+  deriving Repr
+
+def qstep (s : EvQ) : QAct → EvQ
+  | .emit id => { s with emitted := s.emitted ++ [id] }
+  | .put =>
+    match s.emitted[s.accepted]? with
+    | none => s
+    | some e => if s.queue.length < s.cap then { s with queue := s.queue ++ [e], accepted := s.accepted + 1 } else s   -- full: the reader waits
+  | .get =>
+    match s.queue with
+    | [] => s
+    | e :: rest => { s with queue := rest, handled := s.handled ++ [e] }
+
+def qrun (cap : Nat) (as : List QAct) : EvQ := as.foldl qstep { cap := cap }
+
+end CqlVerif.Events
